@@ -101,6 +101,41 @@ pub fn c14(h: &mut H) {
             let sig = sig.ok().unwrap().clone();
             let v = verifym(h, &k.pk, &bases, &sig, &iss.msgs);
             h.expect(v.is_true(), "C14.issued_verifies", "unblinded signature does not verify on the full attribute vector", &[bid, h.last()]);
+            // the two public "extend a commitment by revealed attributes" helpers, called directly:
+            // extend_commitment_with_pk takes the revealed values by running counter,
+            // extend_commitment_with_commitment_pk the full vector by attribute position
+            {
+                let want = |start: &Integer, bs: &[Integer], modn: &Integer| -> Integer {
+                    let mut acc = start.clone();
+                    for &i in &iss.revealed_idx {
+                        acc = Integer::from(&acc * powm(&bs[i], &iss.msgs[i], modn)) % modn;
+                    }
+                    acc
+                };
+                let (e1, _) = call(h, "cl.extend", vec![iss.c.clone(), ivs(&revealed), k.pk.clone(), ivs(&bases), uv(&iss.revealed_idx)], vec![]);
+                h.stat("C14.extend_pk");
+                match e1.ok() {
+                    Some(c2) => h.expect(field(c2, "value") == want(&field(&iss.c, "value"), &bases, &k.n_mod) && c2["randomness"] == iss.c["randomness"], "C14.extend_pk", "extend_commitment_with_pk is not C * prod a_i^m_i over the revealed positions", &[h.last()]),
+                    None => h.expect(false, "C14.extend_pk_panic", "extend_commitment_with_pk panicked on valid input", &[h.last()]),
+                }
+                if let (Some(ct), Some(cp)) = (&iss.ct, &iss.cpk) {
+                    let gs = gbases(cp);
+                    let nn = field(cp, "N");
+                    let (e2, _) = call(h, "cl.extendcpk", vec![ct.clone(), ivs(&iss.msgs), cp.clone(), uv(&iss.revealed_idx)], vec![]);
+                    h.stat("C14.extend_cpk");
+                    match e2.ok() {
+                        Some(c2) => h.expect(field(c2, "value") == want(&field(ct, "value"), &gs, &nn), "C14.extend_cpk", "extend_commitment_with_commitment_pk is not C * prod g_i^m_i over the revealed positions", &[h.last()]),
+                        None => h.expect(false, "C14.extend_cpk_panic", "extend_commitment_with_commitment_pk panicked on valid input", &[h.last()]),
+                    }
+                    // position out of range: both helpers refuse (panic), never extend by something else
+                    let (e3, _) = call(h, "cl.extendcpk", vec![ct.clone(), ivs(&iss.msgs), cp.clone(), uv(&[gs.len() + 1])], vec![]);
+                    h.expect(e3.ok().is_none(), "C14.extend_cpk_range", "extend_commitment_with_commitment_pk accepted a position beyond the key", &[h.last()]);
+                }
+                let (e4, _) = call(h, "cl.extend", vec![iss.c.clone(), ivs(&revealed), k.pk.clone(), ivs(&bases), uv(&vec![n + 3; revealed.len().max(1)])], vec![]);
+                if !revealed.is_empty() {
+                    h.expect(e4.ok().is_none(), "C14.extend_pk_range", "extend_commitment_with_pk accepted a position beyond the bases", &[h.last()]);
+                }
+            }
 
             // ---- the issuer must not sign on mismatches
             let gate = |h: &mut H, class: &str, bases_: &[Integer], zk: &Value, c: &Value, ctv_: Option<&Value>, cpk_: Option<&Value>, hid: &[usize], pkk: &Keys| {
@@ -129,7 +164,10 @@ pub fn c14(h: &mut H) {
                 gate(h, "other_hidden_set", &bases, &iss.zk, &iss.c, ctv.as_ref(), iss.cpk.as_ref(), &u2, &k);
             }
             // other bases / other issuer key
-            gate(h, "other_bases", &k2.bases[..n].to_vec(), &iss.zk, &iss.c, ctv.as_ref(), iss.cpk.as_ref(), &hidden, &k);
+            if hidden.iter().any(|&i| iss.msgs[i] != 0) {
+                // (hidden attributes all 0: the bases do not enter the statement, a^0 = 1 -- DESIGN O7)
+                gate(h, "other_bases", &k2.bases[..n].to_vec(), &iss.zk, &iss.c, ctv.as_ref(), iss.cpk.as_ref(), &hidden, &k);
+            }
             if hidden.len() == 1 {
                 gate(h, "other_key", &k2.bases[..n].to_vec(), &iss.zk, &iss.c, ctv.as_ref(), iss.cpk.as_ref(), &hidden, &k2);
             }
